@@ -36,6 +36,10 @@ CHECKS = {
    technique="deterministic simulation: seeded histories of seek/read/parse/failing-parse operations on one simulated seekable stream, differential oracle against stand-alone parses, re-randomised twin images, input-kind and call-form cross-check",
    text="Seeded search over (definitions, config, stream image with junk prefix/gap/suffix, history of 2-8 stream operations incl. parses that fail half-way on injected read errors). Every parse at position p must give the value (incl. recorded sizes), consumed length or exception class of a stand-alone parse of image[p:]; one parse per case is repeated with all bytes outside its extent re-randomised; bytes, bytearray, memoryview and stream inputs through all four call forms must agree. Sampling.",
    note="Trusts: the library's stand-alone parse from offset 0 as reference (differential); aligned definitions only at offsets that are multiples of 16; [EOF] types keep their suffix in the twin."),
+ "C16": dict(engine="E-PTR", cat="exploration", ref="4.9",
+   technique="deterministic simulation: seeded histories on one simulated seekable stream where dereference is deferred I/O interleaved with other reads/seeks/parses; null, stream-less and dangling pointers as faults; differential oracle against stand-alone parses at the absolute address",
+   text="Seeded search over (pointer width 8-64, endianness, compiled/interpreted, align; root structs with T*, char*, T**, pointer arrays; memory images with valid, null, dangling, edge and self-overlapping addresses; histories of parse/deref/re-deref/arithmetic/attribute/str/raw seek+read/dumps/default-pointer ops on ONE stream). Oracles: stored value = unsigned integer of the configured width at the field; root consumes the declared size; dereference = stand-alone parse at the address, leaves the stream where it was, repeats identically; arithmetic keeps type and stream; null/stream-less raise NullPointerDereference; dumps writes addresses back. Sampling.",
+   note="Trusts: packed layout computed by the harness, aligned offsets from the library; position after a failing dereference unconstrained; error class for dangling addresses unspecified."),
 }
 PENDING = {'C05': 'check not built yet in this revision (planned engine, DESIGN 4); not claimed until its check exists', 'C09': 'check not built yet in this revision (planned engine, DESIGN 4); not claimed until its check exists', 'C10': 'check not built yet in this revision (planned engine, DESIGN 4); not claimed until its check exists', 'C11': 'check not built yet in this revision (planned engine, DESIGN 4); not claimed until its check exists', 'C13': 'check not built yet in this revision (planned engine, DESIGN 4); not claimed until its check exists', 'C14': 'check not built yet in this revision (planned engine, DESIGN 4); not claimed until its check exists', 'C15': 'check not built yet in this revision (planned engine, DESIGN 4); not claimed until its check exists', 'C16': 'check not built yet in this revision (planned engine, DESIGN 4); not claimed until its check exists', 'C17': 'check not built yet in this revision (planned engine, DESIGN 4); not claimed until its check exists', 'C18': 'check not built yet in this revision (planned engine, DESIGN 4); not claimed until its check exists'}
 
